@@ -1,0 +1,23 @@
+//go:build verif
+// +build verif
+
+// Package verifhook holds the verification seams used by the /verif model-checking
+// harness. This file is only compiled with the "verif" build tag.
+package verifhook
+
+// OnPersist, when set, is called immediately before every durable write
+// (leveldb put/delete/batch commit, merkle hash-file append). A harness may
+// panic from it to simulate a process crash before that write lands.
+var OnPersist func(ev string)
+
+// SkipSealFlag makes the ethash seal check of the ETH light client a no-op so
+// that synthetic header chains can be built without mining.
+var SkipSealFlag bool
+
+func Persist(ev string) {
+	if OnPersist != nil {
+		OnPersist(ev)
+	}
+}
+
+func SkipSeal() bool { return SkipSealFlag }
